@@ -136,6 +136,41 @@ Lemma objstm_bounded : forall n first l, objStreamOK n first l = true ->
   1 <= n <= MaxObjectStreamCount l /\ 0 <= first <= MaxObjectStreamFirst l.
 Proof. intros n first l H. unfold objStreamOK in H. lia. Qed.
 
+(* the struct built by ObjectStreamDictWithLimits carries the CONFIGURED decode limit, and the lazy
+   full decode of the object stream content is bounded by it *)
+Lemma objstm_decode_limit : forall n first l mdb o,
+  objectStreamDictWithLimits n first l mdb = Ok o ->
+  o_mdb o = mdb /\ o_count o = n /\ o_first o = first /\
+  1 <= n <= MaxObjectStreamCount l /\ 0 <= first <= MaxObjectStreamFirst l.
+Proof.
+  intros n first l mdb o H. unfold objectStreamDictWithLimits in H.
+  destruct (objStreamOK n first l) eqn:E; [|discriminate]. inversion H; subst. simpl.
+  pose proof (objstm_bounded n first l E). tauto.
+Qed.
+
+Lemma objstm_content_bounded : forall n first l mdb o avail k,
+  inS W mdb -> 0 <= avail ->
+  objectStreamDictWithLimits n first l mdb = Ok o ->
+  osdFullDecode o avail = DOk k ->
+  0 <= k <= avail /\ k <= effLimit mdb (-1) avail /\
+  (0 < mdb < maxInt64 -> k <= mdb) /\ (mdb = 0 -> k <= DefaultMaxDecodeBytes).
+Proof.
+  intros n first l mdb o avail k Hm Ha Ho Hd.
+  destruct (objstm_decode_limit _ _ _ _ _ Ho) as [Hmdb _]. unfold osdFullDecode in Hd. rewrite Hmdb in Hd.
+  assert (Hl : inS W (-1)) by (apply inS64_bwd; lia).
+  destruct (decoded_le_limit mdb avail (-1) k Hm Hl Ha Hd) as [H1 [H2 [H3 H4]]].
+  split; [exact H1|]. split; [exact H2|]. split; [intro Hp; apply H3; [lia|exact Hp]|intro Hz; apply H4; [lia|exact Hz]].
+Qed.
+
+Lemma objstm_bomb_fails : forall n first l mdb o avail,
+  0 < mdb < maxInt64 -> mdb < avail ->
+  objectStreamDictWithLimits n first l mdb = Ok o -> osdFullDecode o avail = DErrLimit.
+Proof.
+  intros n first l mdb o avail Hm Ha Ho.
+  destruct (objstm_decode_limit _ _ _ _ _ Ho) as [Hmdb _]. unfold osdFullDecode. rewrite Hmdb.
+  apply bomb_fails; assumption.
+Qed.
+
 Lemma image_bounded : forall w h l px rb, imageOK w h l = Ok (px, rb) ->
   0 < w /\ 0 < h /\ px = w * h /\ px <= MaxImagePixels l /\ rb = 4 * px /\
   rb <= MaxImageBytes l /\ rb <= maxInt64.
@@ -176,6 +211,29 @@ Definition known_sites : list (string * string) := [
   ("pkg/pdfcpu/writeImage.go", "streamBytes");
   ("pkg/pdfcpu/types/streamdict.go", "StreamDict.Encode")
 ].
+(* constructions of types.ObjectStreamDict that may leave MaxDecodeBytes unset: the write-side
+   constructor (its content is produced by the writer, never decoded from a file) *)
+Definition osd_write_side : list (string * string) :=
+  [("pkg/pdfcpu/types/streamdict.go", "NewObjectStreamDict")].
+
+Lemma osd_constructions_ok : forallb (site_ok osd_write_side) osd_constructions = true.
+Proof. vm_compute. reflexivity. Qed.
+
+Lemma osd_limit_plumbed :
+  (forall c, In c osd_constructions -> site_ok osd_write_side c = true) /\
+  (exists c, In c osd_constructions /\ s_func c = "ObjectStreamDictWithLimits" /\ s_kind c = LConfigured) /\
+  (forall s, In s decode_sites -> is_field s = true ->
+     s_func s = "LazyObjectStreamObject.GetData").
+Proof.
+  split; [apply forallb_forall; exact osd_constructions_ok|]. split.
+  - exists (mksite "pkg/pdfcpu/model/parse.go" "ObjectStreamDictWithLimits" "ObjectStreamDict{}" LConfigured).
+    split; [|split; reflexivity]. unfold osd_constructions. repeat (first [left; reflexivity | right]).
+  - assert (H : forallb (fun s => negb (is_field s) || String.eqb (s_func s) "LazyObjectStreamObject.GetData")
+                  decode_sites = true) by (vm_compute; reflexivity).
+    intros s Hin Hf. apply (proj1 (forallb_forall _ _) H) in Hin. rewrite Hf in Hin. simpl in Hin.
+    apply String.eqb_eq. exact Hin.
+Qed.
+
 Definition encode_only : list (string * string) := [("pkg/pdfcpu/types/streamdict.go", "StreamDict.Encode")].
 
 Lemma decode_sites_ok : forallb (site_ok known_sites) decode_sites = true.
